@@ -19,6 +19,7 @@ A unit template (vf/units/<unit>.rs) is ordinary Verus text plus directive lines
   //@                                together with FROM/TO anchors)
   //@ FROM / //@ ENDFROM, //@ TO / //@ ENDTO    first / last statement anchors of a block lift
   //@ CLOSUREBODY .method            R7: emit only the body of the one closure passed to `.method(|..| BODY)` in this function
+  //@ SIGONLY                        emit the function's signature from the source + the SPEC, with an external_body (a neighbour by contract)
   //@ TOSTMT                         instead of TO: the block is the single statement that begins with the FROM tokens
   //@ STRIPATTRS                     (default for all items) remove #[..] attributes and docs (R1)
   //@END
@@ -288,6 +289,8 @@ class Extractor:
                 d["to_close"] = True
             elif k == "TOSTMT":
                 d["to_stmt"] = True
+            elif k == "SIGONLY":
+                d["sigonly"] = True
             elif k == "CLOSUREBODY":
                 d["closurebody"] = " ".join(w[1:])
             else:
@@ -880,6 +883,14 @@ class Extractor:
             self.lifts.append("%s:%d-%d %s block replaced by `%s`" % (rel, l1, l2, rule, " ".join(newtxt.split())[:80]))
 
         self._last_bodyonly = bool(d["bodyonly"] or d["frm"] is not None or d.get("closurebody"))
+        if kind == "fn" and d.get("sigonly") and body_lo is not None:
+            # a neighbour that enters by its contract: the signature (parameter names and ORDER, types) is read from the source on
+            # every run, so call sites bind their arguments the way the real function takes them; the body is not verified here
+            s0, s1 = toks[body_lo].start - base, toks[body_hi].end - base
+            pieces = [p_ for p_ in pieces if not (p_.off >= s0 and p_.end <= s1)]
+            pieces.append(Piece(s0, s1, "{ unimplemented!() }", "subst", old=orig[s0:s1], rule="R6"))
+            pieces.append(Piece(0, 0, "#[verifier::external_body]\n", "ins"))
+            self.lifts.append("%s: fn %s enters by its stated contract (SIGONLY: signature from the source, body not verified in this unit)" % (rel, name))
         if kind == "fn" and name in self.stub and not self._last_bodyonly and body_lo is not None:
             # retry mode: this function could not be translated; keep its signature and contract, drop its body
             s0, s1 = toks[body_lo].start - base, toks[body_hi].end - base
